@@ -11,7 +11,7 @@ BASELINE_CMD = ('cd /repo && /venv/bin/python -m pytest -ra -q -p no:cacheprovid
                 '--continue-on-collection-errors')
 
 P = {
-    'C01': ('layout / binding symmetry of parser and composer (abstract interpretation of the DSL), length links (affine, by window, tabulated), vector item-kind agreement, tabulated name=value and TXT composers, equality over the composed state, SCSV fold tabulated through the class defaults, small codecs evaluated against the wire format, defaults that read the clock, flag keyed optional parts',
+    'C01': ('layout / binding symmetry of parser and composer (abstract interpretation of the DSL), length links (affine, by window, tabulated), vector item-kind agreement, tabulated name=value and TXT composers, equality over the composed state, SCSV fold tabulated through the class defaults, small codecs evaluated against the wire format, defaults that read the clock, flag keyed optional parts, truth valued fields',
             'Decides the reader/writer-agreement clause of the round trip for all field values: same element sequence, widths, byte order, '
             'text codecs, nesting, optional branches, repetition; every length field the parser uses is derived by the composer from the '
             'size of what it writes (a stored or cached number is a finding); attribute binding on both sides; the SSL 2.0 header by '
@@ -72,9 +72,9 @@ P = {
             'Decides purity of every observer (writes to self / class state; a sufficient condition; swap-and-restore accepted only on a '
             'class named in the source), absence of shared mutable attrs defaults, of aliasing of the input buffer, and of observers '
             'handing out the object\'s own mutable containers, and that nothing mutable kept at class or module level is handed out in a parse result.'),
-    'C14': ('ordered-iteration, no-shared-state, total-dispatch, literal-template, foreign-object, strict-codec and serialiser-purity rules; timedelta and hex rendering tabulated; ordered mapping fields',
-            'Decides the determinism and dispatch clauses and that rendering stores nothing into the rendered object; success for every '
-            'value of every type is not decided.'),
+    'C14': ('ordered-iteration, no-shared-state, total-dispatch, literal-template, foreign-object, strict-codec and serialiser-purity rules; timedelta and hex rendering tabulated; ordered mapping fields; finite floats; Markdown functions return text (def-use); list concatenation with loosely validated fields; equal leaf values render equal (evaluated with the real datetime type)',
+            'Decides the determinism and dispatch clauses, that rendering stores nothing into the rendered object, that no float field can hold NaN / '
+            'infinities, that as_markdown hands back text, that equal instants render equal; success for every value of every type is not decided.'),
     'C15': ('ja3 tabulated over abstract hellos against the published definition (syntactic fallback), def-use agreement with compose, GREASE decision tabulated, no class state and no extra rejections between the wire and ja3, extension model following the class fields and properties, composer adds no items',
             'Decides the JA3 string for every shape of hello the tabulation covers, that exactly the RFC 8701 values are ignored, that nothing '
             'on the way from bytes to ja3 keeps state between messages, and that extension parsers do not silently drop out of the '
@@ -86,7 +86,7 @@ P = {
             'The whole property is decided on the finite table: irreflexive, asymmetric, total, transitive, equal to the specified chain, '
             'every operator in the MRO consistent with (<, ==); eq/hash contract structurally; comparison with a non-version neighbour of a '
             'parsed list answers NotImplemented.'),
-    'C18': ('name matching tabulated over case patterns, whitespace runs and list scanner tabulated from their own statements, component matcher tabulated, separator runs, header line spellings (SP / HTAB on both sides), SPF term spellings, terminator sibling agreement',
+    'C18': ('name matching tabulated over case patterns, whitespace runs and list scanner tabulated from their own statements, component matcher tabulated, separator runs, header line spellings (SP / HTAB on both sides), SPF term spellings, terminator sibling agreement, media type case, case-insensitive token enumerations (reviewed table)',
             'Decides letter case of directive, mechanism and modifier names, optional whitespace around separators and around header field '
             'values, empty list elements, trailing spaces of SPF records, by-name matching, unknown directives, absent / empty values and '
             'the field terminator; invariance over the full grammar of every header is not decided (DESIGN 11.11).'),
